@@ -434,6 +434,15 @@ theorem witness_K_C20_h :
     checkOutput (corrFlags fNW) "a\ra".toList "a a".toList = false := by
   decide +kernel
 
+/-- K-C20-k : only when the USER switches NORMALIZE_WHITESPACE off. The standard checker empties every
+    line of got made of whitespace other than newline (form feed here); xdoctest strips blanks and tabs
+    only. With xdoctest's default options the whitespace collapsing hides the difference (third part). -/
+theorem witness_K_C20_k :
+    stdCheck f00 "\x0c\n\"".toList "\n\"".toList = true ∧
+    checkOutput { corrFlags f00 with normWs := false } "\x0c\n\"".toList "\n\"".toList = false ∧
+    checkOutput (corrFlags f00) "\x0c\n\"".toList "\n\"".toList = true := by
+  decide +kernel
+
 /-- the unguarded sentence is false of the model (and of the code: the witnesses are replayed) -/
 theorem unguarded_false : ¬ stdlib_match_implies_xdoc_match_unguarded := by
   intro h
